@@ -345,12 +345,57 @@ pub fn c06(ctx: &Ctx) -> (CheckMeta, Outcome) {
         }
         out.merge(o4);
     }
+    // (4) the byte-level VByte writers report what they wrote: into sinks that accept 1, 2 or 3 bytes per
+    // call the returned count must still be byte_len_vbyte(v) and that many bytes must be in the sink
+    if crate::pool::is_primary() {
+        use dsi_bitstream::prelude::*;
+        struct Chunk(Vec<u8>, usize);
+        impl std::io::Write for Chunk {
+            fn write(&mut self, buf: &[u8]) -> std::io::Result<usize> {
+                let k = buf.len().min(self.1);
+                self.0.extend_from_slice(&buf[..k]);
+                Ok(k)
+            }
+            fn flush(&mut self) -> std::io::Result<()> {
+                Ok(())
+            }
+        }
+        out.cov.configs.insert("vbyte-io/chunking-sinks".into());
+        for v in boundary_values_raw(Code::VByteBe, ctx.seed, 16) {
+            for k in 1..=3usize {
+                for big in [true, false] {
+                    let mut sink = Chunk(vec![], k);
+                    let r = if big { vbyte_write_be(v, &mut sink) } else { vbyte_write_le(v, &mut sink) };
+                    out.cov.evaluations += 1;
+                    let want = byte_len_vbyte(v);
+                    let bad = match r {
+                        Ok(n) if n == want && sink.0.len() == want => None,
+                        Ok(n) => Some(format!("returned {} and left {} bytes in the sink, byte_len_vbyte says {}", n, sink.0.len(), want)),
+                        Err(e) => Some(format!("failed: {}", e)),
+                    };
+                    if let Some(d) = bad {
+                        if out.violations.len() < 200 {
+                            out.violations.push(crate::report::Violation {
+                                property: "C06".into(),
+                                system: "vbyte-io".into(),
+                                config: if big { "be".into() } else { "le".into() },
+                                op_class: "len:vbyte".into(),
+                                symptom: "length".into(),
+                                detail: format!("vbyte_write_{}({}) into a sink accepting {} bytes per call {}", if big { "be" } else { "le" }, v, k, d),
+                                replay: serde_json::json!({"kind": "none"}),
+                            });
+                        }
+                    }
+                }
+            }
+        }
+    }
     // bits consumed by a read whose codeword ends with the last bit of a strict stream
     out.merge(crate::props::readers::tail_exact("C06", ctx));
     let meta = CheckMeta {
         property: "C06".into(),
         level: "exploration".into(),
-        rule: "bounded-exhaustive: (1) every library length function (len_*, len_*_param with tables on/off, byte_len_vbyte, Codes::len, FuncCodeLen, ConstCode::len) vs the reference codeword length for all codes/parameters, all values below 2^20 (2^22 thorough) for core codes, below 2^10 otherwise, every 2^i+-2, every code-specific step point, domain maxima, seeded extras (no codeword-length restriction); (2) streams as in C03: value returned by write_*, growth of the real stream and bit_pos advance of every read variant, also for codewords that end with the last bit of a strict stream; (3) the same streams written and read through every dispatch mechanism (Codes dynamic/static, FuncCodeReader/Writer, factory readers, ConstCode, the statistics wrapper): returned lengths and bits consumed; non-trivial = value at which the reference length steps, or value > 2^32".into(),
+        rule: "bounded-exhaustive: (1) every library length function (len_*, len_*_param with tables on/off, byte_len_vbyte, Codes::len, FuncCodeLen, ConstCode::len) vs the reference codeword length for all codes/parameters, all values below 2^20 (2^22 thorough) for core codes, below 2^10 otherwise, every 2^i+-2, every code-specific step point, domain maxima, seeded extras (no codeword-length restriction); (2) streams as in C03: value returned by write_*, growth of the real stream and bit_pos advance of every read variant, also for codewords that end with the last bit of a strict stream; (3) the same streams written and read through every dispatch mechanism (Codes dynamic/static, FuncCodeReader/Writer, factory readers, ConstCode, the statistics wrapper): returned lengths and bits consumed; (4) the byte-level VByte writers into sinks accepting 1-3 bytes per call: returned count = bytes in the sink = byte_len_vbyte; non-trivial = value at which the reference length steps, or value > 2^32".into(),
         assumptions: vec!["reference length = length of the reference codeword (harness/src/model.rs)".into()],
     };
     (meta, out)
